@@ -77,13 +77,15 @@ pub fn is_design(m: &[f64], nrows: usize) -> bool {
     is_design
 }
 
-/// Checks whether a 1D array is a valid symmetric matrix.
+/// Checks whether a 1D array is a valid symmetric matrix. Mirrored entries may differ by a relative
+/// rounding error.
 #[inline(always)]
 pub fn is_symmetric(m: &[f64]) -> bool {
     let n = is_square(m).unwrap();
     for i in 0..n {
         for j in i..n {
-            if (m[i * n + j] - m[j * n + i]).abs() > f64::EPSILON {
+            let (u, l) = (m[i * n + j], m[j * n + i]);
+            if (u - l).abs() > f64::EPSILON * u.abs().max(l.abs()) {
                 return false;
             }
         }
